@@ -93,7 +93,7 @@ class World:
             inner = self.to_py(t[1])
             return Tuple[inner, ...] if t[2] == 0 else tuple[inner, ...]
         if k == "tuple":
-            return Tuple[tuple(self.to_py(x) for x in t[1])]
+            return Tuple[tuple(self.to_py(x) for x in t[1])] if t[1] else Tuple[()]
         if k == "set":
             inner = self.to_py(t[1])
             return {0: Set[inner], 1: set[inner], 2: MutableSet[inner]}[t[2]]
@@ -257,6 +257,8 @@ def gen_type(w: World, depth: int, cid_limit: int, hashable=False, self_cid=None
     if r < 0.28:
         return ("tuphom", sub(), rng.randrange(2))
     if r < 0.38:
+        if rng.random() < 0.2 and p.get("any", True):
+            return ("tuple", [("any",) for _ in range(rng.randint(0, 3))])     # all-Any and empty heterogeneous tuples
         return ("tuple", [sub() for _ in range(rng.randint(1, 3))])
     if r < 0.46:
         return ("set", sub(hashable=True), rng.randrange(3))
